@@ -40,6 +40,8 @@ void harness::run_case(const eng::Raw& raw, eng::Ctx& ctx)
 		if (c.header[7] & 64) { a = lib::load(c.A, c.orderA, c.numA); b = lib::load(c.B, c.orderB, c.numB); }
 		else { a = lib::build(c.A, c.orderA, c.numA); b = lib::build(c.B, c.orderB, c.numB); }
 	}
+	inclc::relation_variant() = static_cast<int>((c.header[7] >> 8) % 3);
+	if (inclc::relation_variant()) ctx.tag(inclc::relation_variant() == 1 ? "relation:copy-constructed" : "relation:copy-assigned");
 	inclc::check_all_explicit(ctx, a, b, want, expect);
 	// a pair of objects that SHARE their rule storage: a copy of A (rules only) with other final states; the verdict
 	// must follow the values, in both directions (a quarter of the cases)
